@@ -25,6 +25,8 @@ pub struct TilerCfg {
     pub withhold: u64,
     /// per mille per answer: first send a block with the right offset but fewer bytes (not an answer)
     pub short_first: u64,
+    /// per mille per answer: send an Unchoke although not choking (a repeated Unchoke changes nothing)
+    pub extra_unchoke: u64,
     pub latency_ms: (u64, u64),
     /// choke after this many answers (then unchoke after ms)
     pub choke_after: Option<(u64, u64)>,
@@ -63,6 +65,11 @@ pub fn tiler(cfg: TilerCfg) -> Behaviour {
                         // give the client time to react to it on its own
                         let until = io.log.now_ms() + 20;
                         while io.log.now_ms() < until { if let Ok(None) = io.recv_within(until - io.log.now_ms()).await { return; } }
+                    }
+                    if io.rng.below(1000) < cfg.extra_unchoke {
+                        if !io.send(&Msg::Unchoke).await { return; }
+                        let until = io.log.now_ms() + 10;
+                        while io.log.now_ms() < until { match io.recv_within(until - io.log.now_ms()).await { Ok(None) => return, Ok(Some(Msg::Request(ri, rb, rl))) => { let lat = io.rng.range(cfg.latency_ms.0, cfg.latency_ms.1).max(5); pending.push((ri, rb, rl, io.log.now_ms() + lat)); } _ => () } }
                     }
                     if !io.send(&Msg::Piece(i, b, data.clone())).await { return; }
                     answered.push((i, b, l));
@@ -305,9 +312,9 @@ pub fn gen_scenario(r: &mut Rng, seed: u64) -> Scenario {
     let content = distinct_content(r, total, piece_len);
     let torrent = Rc::new(Torrent::build(piece_len, "out.bin", vec![("out.bin".into(), total)], true, content, "http://sim.invalid/announce"));
     let end_ms = 40_000;
-    let c = TilerCfg { id: peer_id(0), order: r.below(3) as u8, dup: *r.pick(&[0u64, 100, 400]), withhold: *r.pick(&[0u64, 0, 50, 200]), short_first: *r.pick(&[0u64, 0, 100, 400]), latency_ms: match r.below(3) { 0 => (5, 5), 1 => (5, 60), _ => (20, 800) }, choke_after: if r.chance(1, 3) { Some((r.range(1, 5), r.range(10, 3000))) } else { None }, end_ms };
+    let c = TilerCfg { id: peer_id(0), order: r.below(3) as u8, dup: *r.pick(&[0u64, 100, 400]), withhold: *r.pick(&[0u64, 0, 50, 200]), short_first: *r.pick(&[0u64, 0, 100, 400]), extra_unchoke: *r.pick(&[0u64, 0, 0, 150, 500]), latency_ms: match r.below(3) { 0 => (5, 5), 1 => (5, 60), _ => (20, 800) }, choke_after: if r.chance(1, 3) { Some((r.range(1, 5), r.range(10, 3000))) } else { None }, end_ms };
     let order_name = ["in order", "newest first", "random"][c.order as usize];
-    let desc = json!({"seed": seed, "piece_length": piece_len, "pieces": n, "last_piece_length": last, "blocks_per_piece": tiling(piece_len).len(), "peer": {"answer_order": order_name, "dup_permille": c.dup, "withhold_permille": c.withhold, "short_block_first_permille": c.short_first, "latency_ms": [c.latency_ms.0, c.latency_ms.1], "choke_after(answers,ms)": format!("{:?}", c.choke_after)}});
+    let desc = json!({"seed": seed, "piece_length": piece_len, "pieces": n, "last_piece_length": last, "blocks_per_piece": tiling(piece_len).len(), "peer": {"answer_order": order_name, "dup_permille": c.dup, "withhold_permille": c.withhold, "short_block_first_permille": c.short_first, "extra_unchoke_permille": c.extra_unchoke, "latency_ms": [c.latency_ms.0, c.latency_ms.1], "choke_after(answers,ms)": format!("{:?}", c.choke_after)}});
     let c2 = c.clone();
     let rival = r.chance(1, 3);
     let mut peers = vec![PeerSpec { addr: addr(0), id: peer_id(0), entry: Entry::Dialled { from_announce: 0 }, make: Box::new(move |nth| if nth > 1 { None } else { Some(tiler(c2.clone())) }), chunk: *r.pick(&[0usize, 0, 1, 1000]), pipe: 1 << 20 }];
